@@ -12,7 +12,11 @@ A *case* is a JSON-able descriptor {"asm": ..., "targets": seed|None, "setFuel":
                                                                            (no clad / no duct / annular or thinner pin / other
                                                                            multiplicity / per-component materials), 1-7 blocks + dummy
          {"kind": "reactor", "type": t}                                    a design of the detailedAxialExpansion test reactor
-    op   {"kind": "presc", "mode": uniform|block|component|fuel-only|identity|subset|big, "seed": s}   growth fractions L1/L0
+    designate {"mode": fuel-nonfuel|nonfuel|mixed, "seed": s}  explicit target designation before the first change: every FUEL block gets a
+         solid that is NOT the fuel (the clad if present) / non-fuel blocks get a seeded solid / both
+    op   {"kind": "presc", "mode": uniform|block|component|fuel-only|identity|subset|big|fuel-vs-target, "seed": s}   growth fractions L1/L0
+         (fuel-vs-target: per block the fuel grows by one fraction, the target and every other solid by another, |difference| >= 0.005)
+         {"kind": "redesignate", "mode": change|remove, "seed": s}         between two changes: designate another solid / clear the parameter
          {"kind": "thermal", "mode": iso|gradient|random, "seed": s}       temperature grid/field over the assembly height
          {"kind": "inverse"}                                               the inverse of the previous op (1/g, or the old temperatures)
 After EVERY op the clauses of the statement are evaluated; the expected elevations come from a naive bottom-up walk that uses only
@@ -26,7 +30,14 @@ violation ids (stable; `<clause>[.<circumstance>]`)
     boundary.target                  block top != top of its designated target component
     boundary.target-growth           target component did not grow by its fraction of the old block height
     boundary.walk                    block tops differ from the naive walk
-    target.rule                      designated target is not the documented one (fuel block: fuel; plenum/aclp: clad)
+    target.rule                      a block WITHOUT a designation got a target other than the documented one (fuel block: fuel; plenum/aclp: clad)
+    target.designation-overridden    a block's designated target (Block.setAxialExpTargetComp / the axialExpTargetComponent parameter, set
+                                     before the change by the blueprint, by this script - incl. NON-fuel components of FUEL blocks, with setFuel
+                                     True and False - or by an earlier change) is not the block's target parameter after setAssembly / the change
+    boundary.designated-target       block top != top of the component this script / the blueprint explicitly designated (incl. after the
+                                     designation was changed or removed-and-reset between two changes with the same changer)
+    target-mass.designated           mass of the explicitly designated target not conserved (it starts at the block bottom; else the id is
+                                     target-mass.target-offset as for any target)
     component.stacked                linked component does not sit on the one below (or unlinked one not on the block below)
     component.height                 component height != fraction x old block height
     density.factor                   solid component densities != old / fraction (prescribed changes)
@@ -87,7 +98,8 @@ B = Bounded(
 )
 counts = {}
 B.extra["violation_counts"] = counts
-for k in ("refused_negative_height", "refused_setup", "refused_thermal_grid", "skipped_inverse", "changes", "target_offset_seen", "uniform_blocks_checked", "inverse_checked", "radial_nonconserving_seen"):
+for k in ("refused_negative_height", "refused_setup", "refused_thermal_grid", "skipped_inverse", "changes", "target_offset_seen", "uniform_blocks_checked", "inverse_checked", "radial_nonconserving_seen", "designated_blocks_checked",
+          "fuel_blocks_with_nonfuel_target_checked", "redesignations", "designated_mass_checked"):
     B.extra[k] = 0
 B.extra["op_modes"] = {}
 _seen = set()
@@ -214,6 +226,52 @@ def set_targets(a, seed):
             b.setAxialExpTargetComp(rng.choice(solids(b)))
 
 
+EXPLICIT = {}  # block index -> component name designated explicitly (by the blueprint or by this script) for the running case
+
+
+def designate(a, spec):
+    """Explicit designation as blueprints allow: FUEL blocks get a solid that is not the fuel, other blocks a seeded solid."""
+    if not spec:
+        return
+    rng = random.Random(spec["seed"])
+    for b in list(a)[:-1]:
+        ss = solids(b)
+        if b.hasFlags(Flags.FUEL) and spec["mode"] in ("fuel-nonfuel", "mixed"):
+            non = [c for c in ss if not c.hasFlags(Flags.FUEL)]
+            clad = [c for c in non if c.hasFlags(Flags.CLAD)]
+            if non:
+                b.setAxialExpTargetComp(clad[0] if clad and rng.random() < 0.7 else rng.choice(non))
+        elif not b.hasFlags(Flags.FUEL) and spec["mode"] in ("nonfuel", "mixed") and ss and rng.random() < 0.7:
+            b.setAxialExpTargetComp(rng.choice(ss))
+
+
+def default_rule_applies(b):
+    """The documented rule names a target without a designation: fuel block with a fuel component, plenum/aclp block with a clad."""
+    if b.hasFlags(Flags.PLENUM) or b.hasFlags(Flags.ACLP):
+        return len([c for c in b if c.hasFlags(Flags.CLAD)]) == 1
+    return b.hasFlags(Flags.FUEL) and len([c for c in b if c.hasFlags(Flags.FUEL)]) == 1
+
+
+def redesignate(a, op):
+    rng = random.Random(op["seed"])
+    n = 0
+    for k, b in enumerate(list(a)[:-1]):
+        if rng.random() < 0.6:
+            continue
+        ss = [c for c in solids(b) if c.name != b.p.axialExpTargetComponent]
+        if op["mode"] == "remove":
+            if default_rule_applies(b):
+                b.p.axialExpTargetComponent = ""
+                EXPLICIT.pop(k, None)
+                n += 1
+        elif ss:
+            c = rng.choice(ss)
+            b.setAxialExpTargetComp(c)
+            EXPLICIT[k] = c.name
+            n += 1
+    return n
+
+
 # ------------------------------------------------------------------------------------------------ independent facts
 def linked(ca, cb):
     """The documented linkage criteria (solid, same class, same multiplicity, cold bounding diameters overlap)."""
@@ -238,7 +296,8 @@ def dll_percent(c, T):
 
 
 def snapshot(a):
-    s = {"ztop": [b.p.ztop for b in a], "zbottom": [b.p.zbottom for b in a], "height": [b.getHeight() for b in a], "comps": []}
+    s = {"ztop": [b.p.ztop for b in a], "zbottom": [b.p.zbottom for b in a], "height": [b.getHeight() for b in a], "comps": [],
+         "target": [b.p.axialExpTargetComponent for b in a]}
     for b in a:
         s["comps"].append([{"mass": c.getMass(), "dens": dict(c.getNumberDensities()), "T": c.temperatureInC, "area": c.getArea()} for c in b])
     return s
@@ -257,8 +316,11 @@ def presc_factors(a, op):
     g_all = rng.uniform(lo, hi)
     for b in list(a)[:-1]:
         g_b = rng.uniform(lo, hi)
+        g_f = g_b + rng.choice([-1, 1]) * rng.uniform(0.005, 0.03)
         for c in solids(b):
-            if mode in ("uniform", "big"):
+            if mode == "fuel-vs-target":
+                g = g_f if (c.hasFlags(Flags.FUEL) and c.name != b.p.axialExpTargetComponent) else g_b
+            elif mode in ("uniform", "big"):
                 g = g_all
             elif mode == "block":
                 g = g_b
@@ -385,19 +447,30 @@ def check_state(case, a, ch, rec, step):
     walk_ok = True
     for k, b in enumerate(blocks[:-1]):
         Hk = before["height"][k]
-        tname = b.p.axialExpTargetComponent
+        # the designation in force: the explicit one (it holds until this script changes it) else what the block carried before the change
+        des = EXPLICIT.get(k) or before["target"][k]
+        now = b.p.axialExpTargetComponent
+        if des:
+            check(now == des, "target.designation-overridden", "the block's designated target component was replaced by the change", case,
+                  det(block=k, block_type=b.getType(), designated=des, after=now, setFuel=case["setFuel"], explicit=k in EXPLICIT))
+        tname = des or now
         tc = [c for c in b if c.name == tname]
         if len(tc) != 1:
             V("boundary.target", "the block has no unique designated target component", case, det(block=k, target=tname))
             walk_ok = False
             break
         tc = tc[0]
-        # documented target rule where it is unambiguous and no manual choice was made
-        if case.get("targets") is None:
+        bid = "boundary.designated-target" if k in EXPLICIT else "boundary.target"
+        if bid == "boundary.designated-target":
+            B.extra["designated_blocks_checked"] += 1
+            if b.hasFlags(Flags.FUEL) and not tc.hasFlags(Flags.FUEL):
+                B.extra["fuel_blocks_with_nonfuel_target_checked"] += 1
+        # documented target rule where the block carried no designation
+        if not des:
             if b.hasFlags(Flags.PLENUM) or b.hasFlags(Flags.ACLP):
-                check(tc.hasFlags(Flags.CLAD), "target.rule", "plenum/aclp block: the target must be the clad", case, det(block=k, target=tname))
-            elif b.hasFlags(Flags.FUEL) and case["setFuel"]:
-                check(tc.hasFlags(Flags.FUEL), "target.rule", "fuel block: the target must be the fuel", case, det(block=k, target=tname))
+                check(tc.hasFlags(Flags.CLAD), "target.rule", "plenum/aclp block without designation: the target must be the clad", case, det(block=k, target=tname))
+            elif b.hasFlags(Flags.FUEL):
+                check(tc.hasFlags(Flags.FUEL), "target.rule", "fuel block without designation: the target must be the fuel", case, det(block=k, target=tname))
         for ic, c in enumerate(b):
             if not solid(c):
                 continue
@@ -415,8 +488,9 @@ def check_state(case, a, ch, rec, step):
             else:
                 check(c.zbottom == (tops[k - 1] if k else 0.0), "component.stacked", "an unlinked component does not sit on the top of the block below", case, d)
             check(abs(c.height - gc * Hk) <= 1e-12 * H0 and abs(c.ztop - (c.zbottom + c.height)) <= 1e-12 * H0, "component.height", "component height is not its fraction of the old block height", case, d)
-        check(b.p.ztop == tc.ztop, "boundary.target", "the block top is not the top of its designated target component", case,
-              det(block=k, target=tname, block_top=b.p.ztop, target_top=tc.ztop))
+        check(b.p.ztop == tc.ztop, bid, "the block top is not the top of its designated target component", case,
+              det(block=k, block_type=b.getType(), target=tname, block_top=b.p.ztop, target_top=tc.ztop, setFuel=case["setFuel"],
+                  tops={c.name: c.ztop for c in solids(b)}))
         check(abs((tc.ztop - tc.zbottom) - g[id(tc)] * Hk) <= 1e-12 * H0, "boundary.target-growth", "the target component did not grow by its fraction", case,
               det(block=k, target=tname, g=g[id(tc)], old_block_height=Hk, zbottom=tc.zbottom, ztop=tc.ztop))
         walk_tops.append(exp_top.get(id(tc), float("nan")))
@@ -428,7 +502,8 @@ def check_state(case, a, ch, rec, step):
         top = k == n - 1
         gs = [g[id(c)] for c in solids(b)] if not top else []
         uniform = bool(gs) and max(gs) - min(gs) <= 1e-15 * max(gs)
-        tname = b.p.axialExpTargetComponent
+        tname = (EXPLICIT.get(k) or before["target"][k] or b.p.axialExpTargetComponent) if not top else ""
+        explicit = (not top) and k in EXPLICIT
         offset = False
         if not top:
             tcs = [c for c in b if c.name == tname]
@@ -464,8 +539,10 @@ def check_state(case, a, ch, rec, step):
                 B.extra["radial_nonconserving_seen"] += 1
                 if c.name == tname:
                     check(rel(m0, m1) <= 1e-10, "target-mass.linked-dimension", "mass of the block's target component not conserved (its 2-D thermal expansion alone does not conserve it)", case, d)
+            if c.name == tname and explicit and not sfx:
+                B.extra["designated_mass_checked"] += 1
             if c.name == tname:
-                check(rel(m0 * radial, m1) <= 1e-10, "target-mass" + sfx, "mass of the block's target component not conserved", case, d)
+                check(rel(m0 * radial, m1) <= 1e-10, "target-mass" + (sfx or (".designated" if explicit else "")), "mass of the block's target component not conserved", case, d)
             if uniform:
                 check(rel(m0 * radial, m1) <= 1e-10, "uniform-mass" + sfx, "all solids of the block grew by one fraction but the mass of one of them changed", case, d)
 
@@ -501,10 +578,24 @@ def check_inverse(case, a, ref, rec, step):
 # ------------------------------------------------------------------------------------------------ parts
 def run_sequence(case):
     try:
+        EXPLICIT.clear()
         a = build_assembly(case["asm"])
         set_targets(a, case.get("targets"))
+        designate(a, case.get("designate"))
+        for k, b in enumerate(list(a)[:-1]):
+            if b.p.axialExpTargetComponent:
+                EXPLICIT[k] = b.p.axialExpTargetComponent
         ch = AxialExpansionChanger()
         ch.setAssembly(a, setFuel=case["setFuel"])
+        for k, b in enumerate(list(a)[:-1]):
+            if k in EXPLICIT:
+                check(b.p.axialExpTargetComponent == EXPLICIT[k], "target.designation-overridden", "setAssembly replaced the block's designated target component", case,
+                      {"step": "setAssembly", "block": k, "block_type": b.getType(), "designated": EXPLICIT[k], "after": b.p.axialExpTargetComponent, "setFuel": case["setFuel"], "explicit": True})
+                tcs = [c for c in b if c.name == EXPLICIT[k]]
+                check(len(tcs) == 1 and ch.expansionData.isTargetComponent(tcs[0]) and sum(ch.expansionData.isTargetComponent(c) for c in b) == 1,
+                      "target.designation-overridden", "the changer does not treat exactly the designated component as the block's target", case,
+                      {"step": "setAssembly", "block": k, "block_type": b.getType(), "designated": EXPLICIT[k], "setFuel": case["setFuel"],
+                       "changer_targets": [c.name for c in b if ch.expansionData.isTargetComponent(c)]})
         for b in list(a)[:-1]:
             for c in solids(b):
                 _low, ncand = lower_link(a, list(a).index(b), c)
@@ -519,6 +610,10 @@ def run_sequence(case):
     prev = None
     nontrivial = False
     for step, op in enumerate(case["ops"]):
+        if op["kind"] == "redesignate":
+            B.extra["redesignations"] += redesignate(a, op)
+            prev = None  # the previous change cannot be inverted across a change of targets
+            continue
         if case.get("fresh"):
             ch = AxialExpansionChanger()
         try:
@@ -569,7 +664,7 @@ def run_refuse(case):
 
 
 RUN = {"sequence": run_sequence, "refuse": run_refuse}
-PRESC = ["uniform", "block", "component", "fuel-only", "identity", "subset", "big"]
+PRESC = ["uniform", "block", "component", "fuel-only", "identity", "subset", "big", "fuel-vs-target"]
 THERM = ["iso", "iso", "gradient", "random"]
 
 
@@ -590,6 +685,16 @@ def seq_for(rng, k):
         [P("big"), I, P("component"), P("uniform")],
         [T("random"), P("uniform"), I, T("iso")],
     ]
+    def R(mode):
+        return {"kind": "redesignate", "mode": mode, "seed": rng.randrange(10 ** 6)}
+
+    dpats = [  # used with an explicit designation (see cases())
+        [P("fuel-vs-target"), I, T("iso"), P("fuel-vs-target")],
+        [P("fuel-vs-target"), R("change"), P("fuel-vs-target"), I],
+        [P("component"), R("remove"), P("fuel-vs-target"), R("change"), T("gradient")],
+    ]
+    if k >= 100:
+        return dpats[(k - 100) % len(dpats)]
     if k < len(pats):
         return pats[k]
     n = rng.randint(1, 4)
@@ -611,6 +716,10 @@ def cases():
         for k in range(8 if T else 6):
             out.append({"part": "sequence", "asm": asm, "targets": rng.randrange(10 ** 6) if (asm["kind"] == "generated" and rng.random() < 0.5) else None,
                         "setFuel": rng.random() < 0.8, "fresh": rng.random() < 0.3, "ops": seq_for(rng, k)})
+        # explicit designations (FUEL blocks with a non-fuel target; non-fuel blocks), setFuel True and False alternating, same changer throughout
+        for j in range(6 if T else 3):
+            out.append({"part": "sequence", "asm": asm, "targets": None, "designate": {"mode": ["fuel-nonfuel", "mixed", "nonfuel"][j % 3], "seed": rng.randrange(10 ** 6)},
+                        "setFuel": (j + len(out)) % 2 == 0, "fresh": False, "ops": seq_for(rng, 100 + j)})
     for k in range(400 if T else 60):
         out.append({"part": "refuse", "asm": asms[k % len(asms)], "bad": ["length", "nonpositive"][k % 2], "seed": rng.randrange(10 ** 6)})
     rng.shuffle(out)
